@@ -478,6 +478,13 @@ static void generate_minimal_hash(std::vector<std::string> str, Port_Matcher &pm
         return;
     }
     pm.assoc = find_assoc(str, pm.pos);
+    //The search for assoc is a heuristic, use the linear lookup if it did not
+    //end up with a collision free hash
+    auto hashed = do_hash(str, pm.pos, pm.assoc);
+    if(count_dups(hashed) != 0) {
+        pm.pos.clear();
+        return;
+    }
     pm.remap = find_remap(str, pm.pos, pm.assoc);
 }
 
